@@ -1,21 +1,29 @@
 #!/bin/bash
-# Rebuilds the simulator against the current working tree of /repo.
+# Rebuilds the simulator against the current working tree of the repository
+# (/repo, or $VISIM_REPO for scratch copies used in sensitivity tests).
 # db/fs is compiled against visim/simfs through an overlay made from the current sources.
 set -eu
 VERIF="$(cd "$(dirname "$0")" && pwd)"
+REPO="${VISIM_REPO:-/repo}"
+BIN="${VISIM_BIN:-$VERIF/bin}"
 export GOFLAGS=-mod=mod GOPROXY=off GOSUMDB=off GOTOOLCHAIN=local
-mkdir -p "$VERIF/bin"
-exec 9>"$VERIF/bin/.build.lock"
+mkdir -p "$BIN"
+exec 9>"$BIN/.build.lock"
 flock 9
 cd "$VERIF/sim"
-cp /repo/go.sum "$VERIF/sim/go.sum"
 SCR="$(mktemp -d "${TMPDIR:-/tmp}/visim-ov.XXXXXX")"
 trap 'rm -rf "$SCR"' EXIT
-go build -o "$VERIF/bin/fsrewrite" ./cmd/fsrewrite
-"$VERIF/bin/fsrewrite" /repo/db/fs "$SCR/fs" "$SCR/overlay.json"
-go build -overlay "$SCR/overlay.json" -o "$VERIF/bin/visim" ./cmd/visim
+MODFLAG=""
+if [ "$REPO" = "/repo" ]; then
+  cp /repo/go.sum "$VERIF/sim/go.sum"
+else
+  sed "s#=> /repo#=> $REPO#" "$VERIF/sim/go.mod" > "$SCR/alt.mod"
+  cp "$REPO/go.sum" "$SCR/alt.sum"
+  MODFLAG="-modfile=$SCR/alt.mod"
+fi
+go build $MODFLAG -o "$BIN/fsrewrite" ./cmd/fsrewrite
+"$BIN/fsrewrite" "$REPO/db/fs" "$SCR/fs" "$SCR/overlay.json"
+go build $MODFLAG -overlay "$SCR/overlay.json" -o "$BIN/visim" ./cmd/visim
 if [ "${1:-}" = "C19" ] || [ "${1:-}" = "all" ]; then
-  if [ -d "$VERIF/sim/cmd/visimrace" ]; then
-    go build -race -overlay "$SCR/overlay.json" -o "$VERIF/bin/visim-race" ./cmd/visimrace
-  fi
+  go build $MODFLAG -race -overlay "$SCR/overlay.json" -o "$BIN/visim-race" ./cmd/visimrace
 fi
